@@ -53,8 +53,11 @@ def signature(M, scn, m):
     sig = {"module": M.name, "ty": scn["ty"], "a": op.get("a"), "syn": syn, "reason": m["reason"]}
     if "style" in op:
         sig["style"] = op["style"]
-    elif scn["plan"] and "style" in scn["plan"][0]:
-        sig["style"] = scn["plan"][0]["style"]
+    else:
+        for o in scn["plan"]:
+            if "style" in o:
+                sig["style"] = o["style"]
+                break
     return sig, op
 
 
@@ -260,6 +263,62 @@ def check_C04(tier, seed):
     return codec_family("C04", tier, seed, "mutations", exact=False, san="asan", valcap=2 if tier == "quick" else 6,
                         leafcap=3 if tier == "quick" else 0, dense=(tier != "quick"), level="exploration",
                         rule="per (type, value, syntax in DER/OER/UPER/CXER): every truncation, byte substitutions {00,01,7f,80,81,ff,+1,-1,+80} at every position (first 6 / last 4 of long encodings), duplicated tail, dropped byte, appended ff*4; decode (rc in {OK,WMORE,FAIL}, consumed <= size), print, validate, re-encode, decode the re-encoding (must compare equal), free; ASan+UBSan build: any report is a Crash event that no spec action explains")
+
+
+OPTION_SETS_QUICK = [["-fwide-types"], ["-fcompound-names"], ["-findirect-choice"], ["-fno-include-deps"], ["-fincludes-quoted"],
+                     ["-fwide-types", "-fcompound-names", "-findirect-choice", "-fincludes-quoted"]]
+
+
+def check_C13(tier, seed):
+    """the reference build (no options) encodes every (type, value, syntax); every option build must produce the same
+    octets, decode them to the same value, and compare equal (Codec: Adopt + canonical-encoder rule)"""
+    import itertools
+    t0 = time.time()
+    res = Result("C13")
+    known = lib.load_findings("C13")
+    opts = ["-fwide-types", "-fcompound-names", "-findirect-choice", "-fno-include-deps", "-fincludes-quoted"]
+    if tier == "thorough":
+        sets = [list(c) for r in range(1, len(opts) + 1) for c in itertools.combinations(opts, r)]
+        modules = (1, 2, 3, 5)
+    else:
+        sets = OPTION_SETS_QUICK
+        modules = (1, 2)
+    consts = ("Mod <- TheMod", "ByteExact = FALSE")
+    for mi in modules:
+        mod, scns, st = gen_codec(mi, "enc", 2, exact=False, valcap=6 if tier == "quick" else 0, leafcap=8 if tier == "quick" else 0)
+        res.states += st["distinct"]
+        res.transitions += st["states"]
+        M = Module(mod)
+        ref = lib.build_module(M)
+        if not ref.ok:
+            raise Infra("reference build failed: " + ref.err)
+        evs = lib.convert_events(M, scns, lib.run_driver(ref, M, scns))
+        refbytes = {}
+        for e in evs:
+            if e["a"] == "Encode" and "bytes" in e:
+                refbytes[e["id"]] = e["bytes"]
+        for flags in sets:
+            b = lib.build_module(M, flags=flags)
+            if not b.ok:
+                sig = {"module": M.name, "a": "Compile", "reason": "option-build-failed", "style": " ".join(flags)}
+                res.violations.append((sig, {"property": "C13", "signature": sig, "flags": flags, "error": b.err[-1500:], "asn1c": b.asn1c_out[-800:]}))
+                continue
+            sess = []
+            for s in scns:
+                if s["id"] not in refbytes:
+                    continue
+                syn = s["plan"][1]["syn"]
+                sess.append({"id": len(sess) + 1, "ty": s["ty"], "val": s["val"],
+                             "plan": [{"a": "Build", "slot": 1}, {"a": "Adopt", "syn": syn, "bytes": refbytes[s["id"]]},
+                                      {"a": "Encode", "slot": 1, "syn": syn},
+                                      {"a": "DecodeLit", "slot": 2, "syn": syn, "bytes": refbytes[s["id"]], "style": " ".join(flags)},
+                                      {"a": "Compare", "s1": 1, "s2": 2}]})
+                res.distinct.add(nontrivial(M, s) + (" ".join(flags),))
+            run_sessions(res, M, mod, sess, "Trace_Codec", flags=flags, known=known, constants=consts)
+            log("C13 module %s options %s: %d sessions, %d violations so far, %.0fs" % (M.name, " ".join(flags), len(sess), len(res.violations), time.time() - t0))
+    return finish(res, tier, seed, "model_checking", t0,
+                  "the build without options encodes every (type, value) of the universe in DER, UPER, OER, CANONICAL-XER and BASIC-XER; for each option set (quick: each representation option alone and all together; thorough: all 31 non-empty subsets of -fwide-types -fcompound-names -findirect-choice -fno-include-deps -fincludes-quoted) the option build must produce identical octets, decode the reference octets (RC_OK, all consumed, same value) and compare equal; the driver walks descriptors, so it is independent of the C representation",
+                  ASSUME_CODEC + ["the reference for C13 is the default build of the same tree (the property is relative)"])
 
 
 def check_C01(tier, seed):
@@ -674,7 +733,7 @@ def shape_of(c):
 
 
 CHECKS = {"C01": check_C01, "C02": check_C02, "C03": check_C03, "C04": check_C04, "C05": check_C05, "C06": check_C06, "C07": check_C07, "C08": check_C08, "C14": check_C14,
-          "C09": check_C09, "C11": check_C11, "C16": check_C16, "C17": check_C17}
+          "C09": check_C09, "C11": check_C11, "C13": check_C13, "C16": check_C16, "C17": check_C17}
 
 
 def replay(prop, path):
